@@ -7,8 +7,6 @@ import (
 	"github.com/buildbuildio/pebbles/requests"
 )
 
-func verifSetMultipart(req *http.Request, fieldNames, fieldValues, fileKeys, fileNames, fileContents []string)
-func verifRequestMultipart(req *http.Request) map[string]interface{}
 
 // C19: file uploads arrive at the owning service unchanged. Client side: requests.Parse (multipart
 // branch) + injectFile; gateway: planner/executor; downstream: extractFiles / UploadMap / prepareMultipart /
